@@ -560,3 +560,45 @@ def r9_backward_stores(ctx, rid="C14.r9"):
 
 
 RULES += [r9_backward_stores]
+
+
+def r10_smash_completeness(ctx):
+    ctx.rule("C14.r10", "array_adaptive smashing: the summary of an array is seeded with a STRONG update of its first tracked cell only "
+             "where the tracked cells are known to be ALL the cells that may hold a value (an input array, a havocked array or an "
+             "array forgotten by a store over an unknown range has untracked cells with unknown contents)", floor=1)
+    n = 0
+    seen = set()
+    for fn in ctx.db.fns(AA):
+        if not (fn.get("cpk") or "").startswith(AAC):
+            continue
+        if fn["name"] not in ("array_store", "smash_array"):
+            continue
+        body = fn["body"]
+        for c in walk(body):
+            if not (is_call(c, name="array_store") and c.get("o") is not None and len(c.get("a", [])) == 5):
+                continue
+            flag = resolve_local(body, strip(c["a"][4]))
+            # the strong-update flag of the smashing loop:  const bool is_strong_update = (k == 0)
+            if not (isinstance(flag, dict) and cmp_parts(flag) and cmp_parts(flag)[0] == "==" and
+                    any(y.get("k") == "lit" and y.get("v") == "0" for y in walk(flag))):
+                continue
+            key = (fn["name"], c.get("l"))
+            if key in seen:
+                continue
+            seen.add(key)
+            n += 1
+            g = paths.guards(body)
+            complete = any(any(is_call(y, name=("is_complete", "covers_all_cells", "all_cells_tracked")) for y in walk(cond))
+                           for cond, pol in g.get(id(c), ()) if not isinstance(cond, tuple))
+            if complete:
+                ctx.ok("%s: strong seed of the summary only for a completely tracked array" % fn["name"], fn, c)
+            else:
+                ctx.bad("array_adaptive_domain::%s seeds the summary of a smashed array with a strong update of its first tracked cell "
+                        "(`%s`) with no evidence that the tracked cells are all the cells: for an array with untracked contents "
+                        "(input / havocked / forgotten) `A[24] := 1; A[i] := 2; x := A[20]` gives x in [1,2]" %
+                        (fn["name"], src(flag)[:20]), fn, c, sig="smash-strong-seed-without-completeness")
+    if n == 0:
+        ctx.fail("rule C14.r10: smashing loop (array_store with is_strong_update = (k == 0)) not found")
+
+
+RULES += [r10_smash_completeness]
